@@ -240,3 +240,265 @@ func lockChallengeTrace(seed int64) ([][]byte, string, bool, error) {
 	desc := fmt.Sprintf("directed lock-challenge seed=%d proposers=%v target=%d late=%d events=%d (target now at %d/%d/%d locked=%s@%d)", seed, prop, T, L, len(cl.Events), tv.H, tv.R, tv.S, tv.LB, tv.LR)
 	return lines, desc, reached, nil
 }
+
+// relockChallengeTrace is the second DIRECTED schedule (delays only, no Byzantine validator):
+//   round 0: the target T alone sees the polka for X and locks it (lock round 0); no commit;
+//   round 1: a nil polka forms, but two of its prevotes reach T late; T leaves the round through
+//            +2/3 nil precommits, still locked;
+//   round 2: T is the proposer, re-proposes X, sees the polka for X again and RE-LOCKS (lock round 2);
+//   round 3: the two late round-1 prevotes arrive (a polka of a round OLDER than the re-lock), then a
+//            fresh proposal Y. A correct T keeps its lock and prevotes X.
+func relockChallengeTrace(seed int64) ([][]byte, string, bool, error) {
+	rng := rand.New(rand.NewSource(seed))
+	const N = 7
+	cl, err := cluster.New(cluster.Options{N: N, Powers: []int64{1, 1, 1, 1, 1, 1, 1}})
+	if err != nil {
+		return nil, "", false, err
+	}
+	prop := make([]int, 4)
+	vs := cl.ValSet.Copy()
+	for r := 0; r < 4; r++ {
+		prop[r] = cl.IndexOf(vs.GetProposer().Address)
+		vs.IncrementAccum(1)
+	}
+	T, P0, P1, P3 := prop[2], prop[0], prop[1], prop[3]
+	var free []int
+	for i := 0; i < N; i++ {
+		if i != T && i != P0 && i != P1 && i != P3 {
+			free = append(free, i)
+		}
+	}
+	if len(free) != 3 {
+		return nil, "", false, fmt.Errorf("directed relock schedule: proposers of rounds 0..3 are not distinct: %v", prop)
+	}
+	rng.Shuffle(len(free), func(a, b int) { free[a], free[b] = free[b], free[a] })
+	A, B, C := free[0], free[1], free[2]
+	all := cl.Correct()
+	fire := func(i int, step cstypes.RoundStepType, round int) bool {
+		n := cl.Nodes[i]
+		for k, t := range n.Pend {
+			if t.Step == step && t.Round == round {
+				cl.Fire(i, k)
+				return true
+			}
+		}
+		return false
+	}
+	popAll := func(i int) (out []cs.ConsensusMessage) {
+		for {
+			m, ok := cl.PopInternal(i)
+			if !ok {
+				return
+			}
+			out = append(out, m)
+		}
+	}
+	vote := func(ms []cs.ConsensusMessage, typ byte, round int) cs.ConsensusMessage {
+		for _, m := range ms {
+			if v, ok := m.(*cs.VoteMessage); ok && v.Vote.Type == typ && v.Vote.Round == round {
+				return m
+			}
+		}
+		return nil
+	}
+	proposal := func(ms []cs.ConsensusMessage) (out []cs.ConsensusMessage) {
+		for _, m := range ms {
+			switch m.(type) {
+			case *cs.ProposalMessage, *cs.BlockPartMessage:
+				out = append(out, m)
+			}
+		}
+		return
+	}
+	in := func(x int, set ...int) bool {
+		for _, y := range set {
+			if x == y {
+				return true
+			}
+		}
+		return false
+	}
+	// collect the votes of one type and round every node has queued for itself
+	collect := func(typ byte, round int) map[int]cs.ConsensusMessage {
+		out := map[int]cs.ConsensusMessage{}
+		for _, i := range all {
+			if m := vote(popAll(i), typ, round); m != nil {
+				out[i] = m
+			}
+		}
+		return out
+	}
+	allToAll := func(ms map[int]cs.ConsensusMessage) {
+		for _, from := range all {
+			if m, ok := ms[from]; ok {
+				for _, to := range all {
+					if to != from {
+						cl.Deliver(to, m, from)
+					}
+				}
+			}
+		}
+	}
+	// thinned: node `to` gets every prevote for nil and at most `maxBlock` prevotes for a block (its own included)
+	thinned := func(ms map[int]cs.ConsensusMessage, full []int, maxBlock int) {
+		for _, to := range all {
+			if in(to, full...) {
+				for _, from := range all {
+					if m, ok := ms[from]; ok && from != to {
+						cl.Deliver(to, m, from)
+					}
+				}
+				continue
+			}
+			blocks := 0
+			if m, ok := ms[to]; ok && len(m.(*cs.VoteMessage).Vote.BlockID.Hash.Bytes()) > 0 && !m.(*cs.VoteMessage).Vote.BlockID.IsZero() {
+				blocks = 1
+			}
+			for _, from := range all {
+				m, ok := ms[from]
+				if !ok || from == to {
+					continue
+				}
+				if !m.(*cs.VoteMessage).Vote.BlockID.IsZero() {
+					if blocks >= maxBlock {
+						continue
+					}
+					blocks++
+				}
+				cl.Deliver(to, m, from)
+			}
+		}
+	}
+	for _, i := range all {
+		fire(i, cstypes.RoundStepNewHeight, 0)
+	}
+	// ---- round 0: X reaches everybody but A and B; only T sees the polka
+	pm := proposal(popAll(P0))
+	if len(pm) < 2 {
+		return nil, "", false, fmt.Errorf("directed relock schedule: no round-0 proposal")
+	}
+	// (P0's own prevote was popped with the proposal: put it back into the collection below)
+	pv0 := map[int]cs.ConsensusMessage{}
+	for _, to := range all {
+		if !in(to, P0, A, B) {
+			for _, m := range pm {
+				cl.Deliver(to, m, P0)
+			}
+		}
+	}
+	fire(A, cstypes.RoundStepPropose, 0)
+	fire(B, cstypes.RoundStepPropose, 0)
+	for i, m := range collect(types.VoteTypePrevote, 0) {
+		pv0[i] = m
+	}
+	for _, w := range cl.Wire { // P0's prevote is already on the wire
+		if v, ok := w.Msg.(*cs.VoteMessage); ok && w.From == P0 && v.Vote.Type == types.VoteTypePrevote && v.Vote.Round == 0 {
+			pv0[P0] = w.Msg
+		}
+	}
+	thinned(pv0, []int{T}, 4)
+	for _, i := range all {
+		if i != T {
+			fire(i, cstypes.RoundStepPrevoteWait, 0)
+		}
+	}
+	allToAll(collect(types.VoteTypePrecommit, 0)) // 6 nil + T's X: everybody enters round 1
+	lock0 := cl.ViewOf(cl.Nodes[T])
+	// ---- round 1: P1's proposal reaches nobody; nil polka; two of its prevotes reach T late
+	popAll(P1)
+	for _, i := range all {
+		if i != P1 {
+			fire(i, cstypes.RoundStepPropose, 1)
+		}
+	}
+	pv1 := collect(types.VoteTypePrevote, 1)
+	for _, w := range cl.Wire {
+		if v, ok := w.Msg.(*cs.VoteMessage); ok && w.From == P1 && v.Vote.Type == types.VoteTypePrevote && v.Vote.Round == 1 {
+			pv1[P1] = w.Msg
+		}
+	}
+	late := map[int]cs.ConsensusMessage{}
+	for _, from := range all {
+		m, ok := pv1[from]
+		if !ok {
+			continue
+		}
+		for _, to := range all {
+			if to == from {
+				continue
+			}
+			if to == T && in(from, B, C, P1) {
+				if from != P1 {
+					late[from] = m
+				}
+				continue
+			}
+			cl.Deliver(to, m, from)
+		}
+	}
+	pc1 := collect(types.VoteTypePrecommit, 1)
+	allToAll(pc1) // +2/3 nil precommits: everybody, T included, enters round 2
+	// ---- round 2: T re-proposes X; only T sees the polka and re-locks
+	tm := popAll(T)
+	pm2 := proposal(tm)
+	if len(pm2) < 2 {
+		tv := cl.ViewOf(cl.Nodes[T])
+		return nil, "", false, fmt.Errorf("directed relock schedule: the target did not propose in round 2 (it is at %d/%d/%d locked=%s@%d)", tv.H, tv.R, tv.S, tv.LB, tv.LR)
+	}
+	for _, to := range []int{P0, P1, C, A} {
+		for _, m := range pm2 {
+			cl.Deliver(to, m, T)
+		}
+	}
+	for _, i := range all {
+		if i != T {
+			fire(i, cstypes.RoundStepPropose, 2) // POLRound 0 is a polka these nodes never saw: they prevote at the timeout
+		}
+	}
+	pv2 := collect(types.VoteTypePrevote, 2)
+	if m := vote(tm, types.VoteTypePrevote, 2); m != nil {
+		pv2[T] = m
+	}
+	thinned(pv2, []int{T}, 4)
+	for _, i := range all {
+		if i != T {
+			fire(i, cstypes.RoundStepPrevoteWait, 2)
+		}
+	}
+	relock := cl.ViewOf(cl.Nodes[T])
+	allToAll(collect(types.VoteTypePrecommit, 2)) // 6 nil + T's X: round 3
+	// ---- round 3: the stragglers of round 1, then the fresh proposal Y
+	for from, m := range late {
+		cl.Deliver(T, m, from)
+	}
+	pm3 := proposal(popAll(P3))
+	for _, m := range pm3 {
+		cl.Deliver(T, m, P3)
+	}
+	voted := vote(popAll(T), types.VoteTypePrevote, 3) != nil
+	reached := lock0.LB != "none" && lock0.LR == 0 && relock.LB == lock0.LB && len(late) == 2 && len(pm3) >= 2 && voted
+	for _, to := range all {
+		if to != P3 && to != T {
+			for _, m := range pm3 {
+				cl.Deliver(to, m, P3)
+			}
+		}
+	}
+	cl.RunSync(func() bool {
+		for _, i := range all {
+			if cl.Nodes[i].App.Height() < 1 {
+				return false
+			}
+		}
+		return true
+	}, 400)
+	var lines [][]byte
+	b, _ := json.Marshal(cl.InitEvent())
+	lines = append(lines, b)
+	for _, e := range cl.Events {
+		b, _ := json.Marshal(e)
+		lines = append(lines, b)
+	}
+	desc := fmt.Sprintf("directed relock-challenge seed=%d proposers=%v target=%d late=%v events=%d (lock %s@%d, after round 2 %s@%d)", seed, prop, T, []int{B, C}, len(cl.Events), lock0.LB, lock0.LR, relock.LB, relock.LR)
+	return lines, desc, reached, nil
+}
